@@ -23,6 +23,8 @@ def run(rep, idx, tier):
     rep.require("C07.4", 4)
     rep.require("C07.5", 5)
     rep.require("C07.6", 1)
+    rep.require("C07.8", 1)
+    glue.reset_discipline(rep, "C07.8", idx, ["wishbone/bus:Decoder"])
     c = get_ctx(idx, "wishbone:Decoder.elaborate")
     rep.analysed(c.fi.site)
     rep.count("drivers", len(c.t.drivers))
